@@ -13,7 +13,7 @@
 (* against exponentiation by p.                                             *)
 (* G2: the sextic twists y^2 = x^3 + b' over Fp2 with the affine group law. *)
 (***************************************************************************)
-EXTENDS Curve
+EXTENDS Curve, SequencesExt
 
 BlsT == [m |-> BlsP, xi |-> <<One, One>>]
 BnT == [m |-> Bn254P, xi |-> <<OfInt(9), One>>]
@@ -33,10 +33,10 @@ QScale(a, k, m) == <<MulM(a[1], k, m), MulM(a[2], k, m)>>
 QInv(a, m) == QScale(QConj(a, m), InvM(QNorm(a, m), m), m)
 QRed(a, m) == <<Rem(a[1], m), Rem(a[2], m)>>
 QCanon(a, m) == Lt(a[1], m) /\ Lt(a[2], m)
-RECURSIVE QPowI(_, _, _)
-QPowI(a, e, m) == IF e = <<>> THEN QOne
-                  ELSE LET h == QPowI(a, Half(e), m) IN
-                       IF Bit(e, 0) = 0 THEN QMul(h, h, m) ELSE QMul(QMul(h, h, m), a, m)
+\* square-and-multiply over the bits of e, most significant first (FoldLeft: an iteration, so that TLC's cost stays
+\* linear in the length of the exponent)
+BitsMSB(e) == LET n == NumBits(e) IN [i \in 1..n |-> Bit(e, n - i)]
+QPowI(a, e, m) == FoldLeft(LAMBDA acc, b : IF b = 0 THEN QMul(acc, acc, m) ELSE QMul(QMul(acc, acc, m), a, m), QOne, BitsMSB(e))
 \* a is a square in Fp2 iff its norm is a square in Fp
 QIsSquare(a, m) == a = QZero \/ IsSquareM(QNorm(a, m), m)
 QFrob(a, k, m) == IF k % 2 = 0 THEN a ELSE QConj(a, m)
@@ -83,10 +83,7 @@ DConj(a, T) == <<a[1], SNeg(a[2], T)>>
 DRed(a, T) == <<SRed(a[1], T), SRed(a[2], T)>>
 \* w^(p^k) = w (w^6)^((p^k-1)/6)
 DFrob(a, k, T) == <<SFrob(a[1], k, T), SScale(SFrob(a[2], k, T), Gamma(T, k, 6), T)>>
-RECURSIVE DPowI(_, _, _)
-DPowI(a, e, T) == IF e = <<>> THEN DOne
-                  ELSE LET h == DPowI(a, Half(e), T) IN
-                       IF Bit(e, 0) = 0 THEN DMul(h, h, T) ELSE DMul(DMul(h, h, T), a, T)
+DPowI(a, e, T) == FoldLeft(LAMBDA acc, b : IF b = 0 THEN DMul(acc, acc, T) ELSE DMul(DMul(acc, acc, T), a, T), DOne, BitsMSB(e))
 \* the cyclotomic subgroup: x^(p^4 - p^2 + 1) = 1 for unitary x (x conj(x) = 1)
 InCyclo(a, T) == DMul(a, DConj(a, T), T) = DOne /\ DMul(DFrob(a, 4, T), a, T) = DFrob(a, 2, T)
 \* sparse elements used by the Miller loop
